@@ -22,8 +22,9 @@ func runBinary(stdinPath string, stdin []byte, args ...string) (out string, code
 		ctx, cancel := context.WithTimeout(context.Background(), limit)
 		cmd := exec.CommandContext(ctx, CalcBinary, args...)
 		var ob bytes.Buffer
-		cmd.Stdout = &ob
-		cmd.Stderr = &ob
+		lw := &cappedWriter{b: &ob, cancel: cancel}
+		cmd.Stdout = lw
+		cmd.Stderr = lw
 		var f *os.File
 		switch {
 		case stdinPath != "":
@@ -42,6 +43,9 @@ func runBinary(stdinPath string, stdin []byte, args ...string) (out string, code
 		}
 		expired := ctx.Err() == context.DeadlineExceeded
 		cancel()
+		if lw.over {
+			return ob.String()[:4096], -1, true // printing without end is not terminating
+		}
 		if expired {
 			if attempt < len(limits)-1 {
 				continue
@@ -58,4 +62,20 @@ func runBinary(stdinPath string, stdin []byte, args ...string) (out string, code
 		return ob.String(), code, false
 	}
 	return "", -1, true
+}
+
+// cappedWriter keeps at most 64 MiB of a child's output and stops the child beyond that.
+type cappedWriter struct {
+	b      *bytes.Buffer
+	cancel func()
+	over   bool
+}
+
+func (c *cappedWriter) Write(p []byte) (int, error) {
+	if c.b.Len()+len(p) > 64<<20 {
+		c.over = true
+		c.cancel()
+		return len(p), nil
+	}
+	return c.b.Write(p)
 }
